@@ -111,7 +111,7 @@ func (b *MvhdBox) EncodeSW(sw bits.SliceWriter) error {
 	}
 	versionAndFlags := (uint32(b.Version) << 24) + b.Flags
 	sw.WriteUint32(versionAndFlags)
-	if b.Version == 0 {
+	if b.Version != 1 {
 		sw.WriteUint32(uint32(b.CreationTime))
 		sw.WriteUint32(uint32(b.ModificationTime))
 		sw.WriteUint32(b.Timescale)
